@@ -849,7 +849,7 @@ class Element(ABC):
                 )
 
             value = float(value)
-            if value >= self._parameter_upper_limit[key]:
+            if not (value < self._parameter_upper_limit[key]):
                 raise ValueError(
                     f"Expected the new value of {key=} ({value}) to be less than the current upper limit of {self._parameter_upper_limit[key]}"
                 )
@@ -992,7 +992,7 @@ class Element(ABC):
                 )
 
             value = float(value)
-            if value <= self._parameter_lower_limit[key]:
+            if not (value > self._parameter_lower_limit[key]):
                 raise ValueError(
                     f"Expected the new value of {key=} ({value}) to be greater than the current lower limit of {self._parameter_lower_limit[key]}"
                 )
